@@ -25,9 +25,9 @@ mod __verif_kani {
         };
     }
 
-    //@ kind=B props=C13 bound=len=16,5_symbolic_bytes_at_5..10_rest_ASCII fn=text::utf8::broadword::accepts,validate_sequence : every 5-byte pattern straddling an 8-byte word boundary: acceptor verdict == Table 3-7 well-formedness
+    //@ kind=B props=C13 tier=thorough bound=len=16,5_symbolic_bytes_at_5..10_rest_ASCII fn=text::utf8::broadword::accepts,validate_sequence : every 5-byte pattern straddling an 8-byte word boundary: acceptor verdict == Table 3-7 well-formedness
     bw_case!(c13_broadword_window_word_edge, 16, 5, 5);
-    //@ kind=B props=C13 bound=all_inputs_of_length_4 fn=text::utf8::broadword::accepts,validate_sequence : every byte string of length 4
+    //@ kind=B props=C13 tier=thorough bound=all_inputs_of_length_4 fn=text::utf8::broadword::accepts,validate_sequence : every byte string of length 4
     bw_case!(c13_broadword_len4, 4, 0, 4);
 
     // ---- the three byte-level contracts the Verus unit c13_broadword uses as stubs (seam R4)
